@@ -418,7 +418,97 @@ func (sim *Sim) runFree(enc codec.Encoder) {
 			}
 		}()
 	}
-	if cfg.InConsumer == 1 {
+	replyIdx, errCloser := -1, -1
+	if cfg.Reentrant == 1 && len(cfg.Senders) > 0 && len(cfg.Closers) > 1 {
+		replyIdx, errCloser = len(cfg.Senders)-1, len(cfg.Closers)-1
+		// the inbound consumer replies on the endpoint of every packet it takes
+		bg.Add(1)
+		go func() {
+			defer bg.Done()
+			th := sim.register(TSender*1000 + replyIdx)
+			defer func() {
+				sim.mu.Lock()
+				th.finished = true
+				sim.mu.Unlock()
+			}()
+			next := 0
+			for {
+				select {
+				case <-stop:
+					return
+				case p := <-sim.inbound:
+					sim.noteInbound(p)
+					if p == nil || p.Command() < 0 || next >= len(cfg.Senders[replyIdx]) {
+						continue
+					}
+					spec := cfg.Senders[replyIdx][next]
+					next++
+					sim.point(PSendBegin, spec.ID)
+					code := 0
+					if pn, _ := Catch(func() {
+						switch p.Endpoint().SendPacket(mkPacket(spec)) {
+						case nil:
+							code = 0
+						case qnet.ErrConnIsClosing:
+							code = 1
+						case qnet.ErrConnOutboundOverflow:
+							code = 2
+						default:
+							code = 4
+						}
+					}); pn {
+						code = 3
+						atomic.AddInt32(&sim.panics, 1)
+					}
+					sim.mu.Lock()
+					sim.results[replyIdx] = append(sim.results[replyIdx], [2]int{spec.ID, code})
+					sim.mu.Unlock()
+					sim.point(PSendRet, code)
+				}
+			}
+		}()
+		// the error consumer closes the endpoint named in the terminal error
+		if sim.errch != nil {
+			bg.Add(1)
+			go func() {
+				defer bg.Done()
+				th := sim.register(TCloser*1000 + errCloser)
+				defer func() {
+					sim.mu.Lock()
+					th.finished = true
+					sim.mu.Unlock()
+				}()
+				var e error
+				select {
+				case <-stop:
+					select {
+					case e = <-sim.errch:
+					default:
+						sim.mu.Lock()
+						sim.closeRes[errCloser] = 1 // no terminal error was offered: the call was never made
+						sim.mu.Unlock()
+						return
+					}
+				case e = <-sim.errch:
+				}
+				{
+					sim.noteErr(e)
+					sim.point(PCloseBegin, 0)
+					res := 1
+					if qe, ok := e.(*qnet.Error); ok {
+						if pn, _ := Catch(func() { qe.Endpoint.Close() }); pn {
+							res = 3
+							atomic.AddInt32(&sim.panics, 1)
+						}
+					}
+					sim.mu.Lock()
+					sim.closeRes[errCloser] = res
+					sim.mu.Unlock()
+					sim.point(PCloseRet, res)
+				}
+			}()
+		}
+	} else if cfg.InConsumer == 1 {
 		startDrain()
 	}
 	// the peer's writer
@@ -503,6 +593,9 @@ func (sim *Sim) runFree(enc codec.Encoder) {
 	}
 	var sw sync.WaitGroup
 	for i := range cfg.Senders {
+		if i == replyIdx {
+			continue
+		}
 		sw.Add(1)
 		go func(i int) { defer sw.Done(); sim.senderMain(i) }(i)
 	}
@@ -546,6 +639,9 @@ func (sim *Sim) runFree(enc codec.Encoder) {
 	}
 	var cw sync.WaitGroup
 	for j := range cfg.Closers {
+		if j == errCloser {
+			continue
+		}
 		cw.Add(1)
 		go func(j int) { defer cw.Done(); sim.closerMain(j) }(j)
 	}
